@@ -1298,13 +1298,16 @@ func (fr *Frame) eventAsserts(event string, st *State, pos token.Pos, vars ...ma
 			continue
 		}
 		fx.anchorHit(a.Anchor)
-		env := fr.specEnv(st, nil, nil)
+		env := fr.specEnv(st, fr.evBlk, nil) // locals of the function are visible at the event's block
+		saveInside := fr.atInside
+		fr.atInside = true
 		for _, vm := range vars {
 			for k, v := range vm {
 				env.vars[k] = v
 			}
 		}
 		g, err := env.evalGoal(a.Clause.Expr)
+		fr.atInside = saveInside
 		if err != nil {
 			fx.unsupported = append(fx.unsupported, fmt.Sprintf("assert @%s: %v", a.Anchor, err))
 			continue
